@@ -247,7 +247,7 @@ static void roll_sweep(void)
 			if (vk_want_trace) {
 				/* direct call of the scan routine so that the measurement is attributed to the dispatch candidate itself */
 				uint32_t idx = 0; *st = st0;
-				VCALLN(scan, roll_impl[impl], AP(&idx), A32(N), AP(st->table1), AP(st->table2), AP(s_in.ro + 256 + w), AP(s_in.ro + 256), A64(st->hash), A64(mask), A64(trig));
+				VCALLN(scan, roll_impl[impl], AP(&idx), A64(N), AP(st->table1), AP(st->table2), AP(s_in.ro + 256 + w), AP(s_in.ro + 256), A64(st->hash), A64(mask), A64(trig));
 				if (mi > 2) continue;
 			}
 			/* explicit-state search: state = position p (canonical state restored), transition = run(max_len m) */
@@ -346,6 +346,66 @@ next_impl:;
 			uint64_t r = VCALLN(f_mg, "isal_rolling_hashx_mask_gen", A32(mean), A32(sh), AP(pm));
 			vk_stat("mask_gen_calls", 1);
 			if ((int)r || *pm != exp) { vk_violation("C09", "isal_rolling_hashx_mask_gen:value", NULL, "mask_gen(mean=%u, shift=%u) = %x (ret %d), definition gives %x", mean, sh, *pm, (int)r, exp); }
+		}
+	}
+}
+
+
+/* ================= block-level assembly entry points called directly (C19 / C08 / C20 coverage) ================= */
+/* _mh_*_block_<fam> and _rolling_hash2_run_until_<impl> are reached in normal use only through C code that may
+ * save and restore the registers they clobber; they are CPU-specific entry points of their own, so they are also
+ * called directly. Oracle: ABI state (trampoline) and agreement with the base family on the same input. */
+static void blocks_sweep(void)
+{
+	static const char *kn[3] = { "mh_sha1", "mh_sha256", "mh_sha1_murmur3_x64_128" };
+	static uint32_t dig[5][8][16] __attribute__((aligned(64))); static uint8_t frame[2][2048] __attribute__((aligned(64))); static uint64_t mur[5][2];
+	for (int kind = 0; kind < 3; kind++) for (uint32_t nb = 1; nb <= (vk_thorough ? 5u : 3u); nb++)   /* internal contract: callers pass at least one block */ for (size_t off = 0; off < (vk_thorough ? 64u : 16u); off += 5) {
+		int nw = kind == 1 ? 8 : 5, have_base = 0;
+		for (int f = 0; f < 5; f++) {
+			char nm[96]; snprintf(nm, sizeof nm, "_%s_block_%s", kn[kind], mh_fams[f]);
+			void *fn = vk_sym(nm);
+			if (!fn || !vk_host_can(mh_need[f])) continue;
+			for (int w = 0; w < nw; w++) for (int sg = 0; sg < 16; sg++) dig[f][w][sg] = (uint32_t)vk_mix(w * 16 + sg + kind);
+			mur[f][0] = 0x1111222233334444ull; mur[f][1] = 0x5555666677778888ull;
+			const uint8_t *in = piece(&s_in, pool + off, (size_t)nb * 1024, guard_mode ? VK_END : VK_MID, 64 + off);
+			int faulted = 0;
+			if (VK_TRY()) {
+				if (kind == 2) VCALLN(fn, nm, AP(in), AP(dig[f]), AP(frame[0]), AP(mur[f]), A64(nb)); else VCALLN(fn, nm, AP(in), AP(dig[f]), AP(frame[0]), A64(nb));   /* internal routines: arguments extended as the library's C callers do */
+				VK_END_TRY();
+			} else faulted = 1;
+			vk_stat("block_calls", 1);
+			char shape[64]; snprintf(shape, sizeof shape, "blocks=%u off=%zu", nb, off);
+			if (faulted) { fault_report(nm, shape); continue; }
+			if (f == 0) have_base = 1;
+			else if (have_base && (memcmp(dig[f], dig[0], (size_t)nw * 64) || (kind == 2 && memcmp(mur[f], mur[0], 16)))) {
+				char key[128]; snprintf(key, sizeof key, "%s:block_mismatch", nm);
+				vk_violation(kind == 2 ? "C10" : "C05", key, NULL, "%s and the base block function disagree (%s)", nm, shape);
+			}
+		}
+	}
+	/* rolling-hash scan routines */
+	{
+		struct isal_rh_state2 st; uint8_t buf[400];
+		memcpy(buf, pool + 77, sizeof buf);
+		void *f_init = vk_sym("_rolling_hash2_init");
+		if (f_init) for (unsigned w = 1; w <= 48; w += 7) {
+			VCALLN(f_init, "_rolling_hash2_init", AP(&st), A32(w));
+			for (uint32_t maxi = w; maxi <= w + 40; maxi++) {
+				uint64_t res[3]; uint32_t idxs[3];
+				for (int impl = 0; impl < 3; impl++) {
+					void *scan = vk_sym(roll_impl[impl]);
+					res[impl] = 0; idxs[impl] = 0;
+					if (!scan || !vk_host_can(roll_need[impl])) continue;
+					uint32_t idx = w;
+					const uint8_t *b1 = piece(&s_in, buf, maxi, guard_mode ? VK_END : VK_MID, 128);
+					int faulted = 0;
+					if (VK_TRY()) { res[impl] = VCALLN(scan, roll_impl[impl], AP(&idx), A64(maxi), AP(st.table1), AP(st.table2), AP(b1), AP(b1 - w), A64(0x1234567), A64(0x7), A64(0x3)); VK_END_TRY(); } else faulted = 1;
+					vk_stat("block_calls", 1);
+					if (faulted) { char shape[64]; snprintf(shape, sizeof shape, "w=%u max_idx=%u", w, maxi); fault_report(roll_impl[impl], shape); continue; }
+					idxs[impl] = idx;
+					if (impl && (res[impl] != res[0] || idxs[impl] != idxs[0])) { char key[128]; snprintf(key, sizeof key, "%s:scan_mismatch", roll_impl[impl]); vk_violation("C09", key, NULL, "%s and the base scan disagree (w=%u max_idx=%u: idx %u vs %u)", roll_impl[impl], w, maxi, idxs[impl], idxs[0]); }
+				}
+			}
 		}
 	}
 }
@@ -559,6 +619,7 @@ int main(int argc, char **argv)
 	if (want("mh256")) mh_sweep(1);
 	if (want("mur")) mh_sweep(2);
 	if (want("roll")) roll_sweep();
+	if (want("blocks") && vk_shard == 0 && !vk_want_trace) blocks_sweep();
 	if (want("gcms")) gcms_sweep();
 	vk_sample("mh: _mh_sha1_update_avx2 pieces=1009,1039 then finalize vs multi-hash definition; rolling: w=13 impl=_00 mask=3 trigger=1 pos=5 max_len=14 -> (offset,match,hash,history) vs definition; gcm stream: _aes_gcm_enc_128_update_sse pieces=7,9,33 aad=20 vs one-shot");
 	vk_finish();
